@@ -482,6 +482,26 @@ def entry_frame_read(F):
     for nm, s_ in zip(("key", "val"), rng):
         r = b.arg_exprs(s_)[1]
         out[nm] = (lin_str(linform(r.a[0], sym)), lin_str(linform(r.a[1], sym)))
+    if not rng:
+        # the same two regions taken in two steps, `payload[a..][..n]`: the outermost bounded slices of the payload
+        is_payload = lambda x: is_call(x, "Block::payload")
+        cand = []
+        for s_, c, t in b.calls():
+            if not callee_name(c).endswith("Index<I> for [T]>::index"):
+                continue
+            a = b.arg_exprs(s_)
+            if len(a) != 2 or a[1].k != "agg" or not (a[1].x.get("adt") or "").endswith(("ops::RangeTo", "ops::Range")):
+                continue
+            e_ = Expr("call", a, path="core::slice::index::<impl std::ops::Index<I> for [T]>::index", site=s_)
+            reg = slice_region(e_, sym, is_payload)
+            if reg is not None and a[0].strip().k == "call" and not is_payload(a[0]):
+                cand.append((s_, reg))
+        order = [str(y) for y in dom_order(b, [y[0] for y in cand])]
+        cand.sort(key=lambda x: order.index(str(x[0])))
+        if len(cand) == 2:
+            rng = [x[0] for x in cand]
+            for nm, (s_, reg) in zip(("key", "val"), cand):
+                out[nm] = (lin_str(reg[0]), lin_str(reg[1]))
     rets = [e for e in flat_alts(b.expr_at_return()) if e.k == "agg" and e.x.get("variant") == "Some"]
     if len(rets) == 1:
         tup = rets[0].a[0]
